@@ -314,7 +314,7 @@ func init() {
 		defer putModel(m)
 		rng := newRand(11)
 		n := tierN(150, 5000)
-		for i := 0; i < n; i++ {
+		for i := 0; i < n && !expired(); i++ {
 			c11Case(r, m, rng, i)
 		}
 		r.Validated = r.Evaluations
